@@ -76,16 +76,18 @@ func (rows *leveldbRows) Close() {
 }
 
 func (rows *leveldbRows) ascendRange(rng *util.Range, iterator RowIterator) {
-	it := rows.db.NewIterator(rng, nil)
+	db := rows.db
+	it := db.NewIterator(rng, nil)
 	defer it.Release()
 	for ok := it.First(); ok; ok = it.Next() {
 		if !iterator(fromProto(it.Value())) {
 			break
 		}
 	}
-	if err := it.Error(); err != nil && err != leveldb.ErrClosed {
-		// ErrClosed: the table was cleared (Clear closes and replaces the database) while a scan that had given up
-		// the table lock to stream a batch was still holding this iterator. All rows are gone; the scan just ends.
+	if err := it.Error(); err != nil && err != leveldb.ErrClosed && rows.db == db {
 		panic(err)
 	}
+	// rows.db != db: the table was cleared (Clear closes and replaces the database) while a scan that had given up
+	// the table lock to stream a batch was still holding this iterator. The iterator then fails with ErrClosed or,
+	// if it was reading from a table file, with "reader released". All rows are gone; the scan just ends.
 }
